@@ -589,3 +589,24 @@ func UseSqueeze(b []byte, k *kidList) []byte {
 	k.dropFirstWrong(1)
 	return squeezeWrong(b)
 }
+
+// L-RAWFIELD: the raw slice type is compared although 5..9 alias 0..4.
+type sliceHdr struct {
+	SliceType uint32
+	L1        bool
+}
+
+func parseRawWrong(sh *sliceHdr) int {
+	st := sh.SliceType % 5
+	n := 0
+	if st == 1 {
+		n++
+	}
+	if sh.SliceType == 1 {
+		sh.L1 = true
+	}
+	return n
+}
+
+// UseParseRaw keeps the function reachable.
+func UseParseRaw(sh *sliceHdr) int { return parseRawWrong(sh) }
